@@ -187,6 +187,102 @@ theorem unwind_exception_depth (blk : List Block) (stk : List Kind) (s' : State)
 
 end EffectTable
 
+/-! ### the table with the edge adjustments of `stackDepthWalk`; unwinding depth -/
+section Edges
+open Generated
+
+/-- the depth `stackDepthWalk` continues with after the instruction, relative to the depth before it -/
+def walkFall (op : Op) (e : Int) : Int :=
+  if op = .JUMP_IF_TRUE_OR_POP ∨ op = .JUMP_IF_FALSE_OR_POP then e - 1 else e
+
+/-- the depth `stackDepthWalk` enters the jump target with, relative to the depth before the instruction -/
+def walkTarget (op : Op) (e : Int) : Int :=
+  if op = .FOR_ITER then e - 2 else if op = .SETUP_FINALLY ∨ op = .SETUP_EXCEPT then e + 3 else e
+
+/-- what the table misses: WITH_CLEANUP entered with an exception on the stack -/
+def withCleanupSlack (op : Op) (stk : List Kind) : Int :=
+  if op = .WITH_CLEANUP ∧ stk.head? = some .exc then 2 else 0
+
+/-- every non-exceptional result is covered by the fall-through edge or by the jump edge of the walk -/
+def EdgeLe (pc : Nat) (i : Instr) (d : Nat) (e : Int) (slack : Int) : Res → Prop
+  | .norm pc' stk' _ =>
+    (pc' = pc + i.size ∧ (stk'.length : Int) ≤ d + walkFall i.op e + slack) ∨
+    (pc' ∈ jumpTargets pc i ∧ (stk'.length : Int) ≤ d + walkTarget i.op e)
+  | .yld _ stk' _ => stk'.length + 1 ≤ d      -- the frame is resumed with one more entry: never deeper than before
+  | _ => True
+
+theorem special_edge_le (pc : Nat) (i : Instr) (stk : List Kind) (blk : List Block) (e : Int)
+    (h2 : opcodeStackEffect i.op i.arg = some e) :
+    ∀ r ∈ execSpecial pc i stk blk, EdgeLe pc i stk.length e (withCleanupSlack i.op stk) r := by
+  obtain ⟨op, arg, size⟩ := i
+  cases op <;> simp only [opcodeStackEffect] at h2 <;> (try cases h2) <;>
+    simp only [execSpecial, under] <;>
+    (repeat' split) <;>
+    simp [EdgeLe, walkFall, walkTarget, withCleanupSlack, jumpTargets, truncate, objs] at * <;> omega
+
+
+theorem execI_edge_le (c : Code) (pc : Nat) (i : Instr) (stk : List Kind) (blk : List Block) (e : Int)
+    (harg : i.arg < 2147483648)
+    (h2 : opcodeStackEffect i.op i.arg = some e) :
+    ∀ r ∈ execI c pc i stk blk, EdgeLe pc i stk.length e (withCleanupSlack i.op stk) r := by
+  unfold execI
+  split
+  · simp [EdgeLe]
+  · split
+    · rename_i eff heff
+      have ⟨hpn, hle⟩ := simple_eff_le c i.op i.arg eff e harg heff h2
+      have hf : walkFall i.op e = e := by
+        unfold walkFall
+        split
+        · rename_i hor
+          rcases hor with hh | hh <;> rw [hh] at heff <;> simp [simpleEff] at heff
+        · rfl
+      have hs : withCleanupSlack i.op stk = 0 := by
+        unfold withCleanupSlack
+        split
+        · rename_i hh
+          rw [hh.1] at heff; simp [simpleEff] at heff
+        · rfl
+      split
+      · simp [under, EdgeLe]
+      · rename_i hlen
+        intro r hr
+        simp only [List.mem_cons, List.mem_map] at hr
+        rcases hr with rfl | ⟨x, _, rfl⟩
+        · simp only [EdgeLe, List.length_append, List.length_drop, hf, hs]
+          left
+          refine ⟨?_, ?_⟩ <;> first | trivial | rfl | omega
+        · simp [EdgeLe]
+    · exact special_edge_le pc i stk blk e h2
+
+/-- depth bound of every block-stack unwinding that lands in the frame again: at most 6 entries above
+the level of the block that catches it (exception: 6, return / continue into a finally: 2, break
+into a finally: 1, break to the loop end: 0), except `continue` reaching its loop, which keeps the
+stack it arrives with (never more than it had, +0). -/
+theorem unwind_depth (w : UW) (blk : List Block) (stk : List Kind) (s' : State)
+    (h : unwind w blk stk = .next s') :
+    s'.stk.length ≤ stk.length + 6 ∧
+    ∃ b ∈ blk, s'.stk.length ≤ b.level + 6 ∨ (b.ty = .loop ∧ w = .cont s'.pc ∧ s'.stk.length ≤ stk.length) := by
+  induction blk generalizing stk with
+  | nil => cases w <;> simp [unwind] at h
+  | cons b bs ih =>
+    unfold unwind at h
+    repeat' split at h
+    all_goals first
+      | (cases h; done)
+      | (injection h with h; subst h
+         refine ⟨?_, b, List.mem_cons_self, ?_⟩ <;> simp_all [excSix, truncate] <;> omega)
+      | (try simp only at h
+         obtain ⟨h4, b', hb', h3⟩ := ih _ h
+         refine ⟨?_, b', List.mem_cons_of_mem _ hb', ?_⟩
+         · (try simp [truncate] at h4); omega
+         · rcases h3 with h3 | ⟨h31, h32, h33⟩
+           · exact .inl h3
+           · refine .inr ⟨h31, h32, ?_⟩
+             (try simp [truncate] at h33); omega)
+
+end Edges
+
 /-! ### line table -/
 
 
